@@ -88,6 +88,25 @@ impl Observer for IdModel {
             _ => self.take_released(&format!("{}/{v}", call_name(&st.call)), &st.events)?,
         }
         let released: BTreeSet<u32> = st.released().into_iter().collect();
+        // every announced release has an owner: the call names the identifier (release, a refused or completing send,
+        // erase), or an exchange the application knows to be in flight owns it. An identifier the application merely
+        // holds is never released by the library on its own.
+        let owned: BTreeSet<u32> = pre_app.all_out().into_iter().collect();
+        for id in &released {
+            let named = match &st.call {
+                Call::Release(v) | Call::Erase(v) => v == id,
+                Call::Send(ap) => ap.packet_id() == Some(*id),
+                _ => false,
+            };
+            if !named && !owned.contains(id) && !st.new_session {
+                let what = if pre_app.held.contains(id) { "held_by_application" } else { "no_exchange" };
+                return Err(fail(
+                    "C08.release_without_owner",
+                    format!("{}/{what}/{v}", call_name(&st.call)),
+                    format!("NotifyPacketIdReleased({id}) although no in-flight exchange owns the identifier and the call does not name it ({what}); exchanges in flight: {:?}, held: {:?}", owned, pre_app.held),
+                ));
+            }
+        }
         // completion
         for ap in st.recvs() {
             let (set, what): (&BTreeSet<u32>, &str) = match ap {
